@@ -1055,14 +1055,15 @@ impl DecodedPixelData<'_> {
                         let lut: Lut<u8> = match (voi_lut, self.window()?, self.voi_lut_sequence()?)
                         {
                             (VoiLutOption::Identity, _, _) => {
-                                Lut::new_rescale(8, false, rescale).context(CreateLutSnafu)?
+                                Lut::new_rescale(self.bits_stored, signed, rescale)
+                                    .context(CreateLutSnafu)?
                             }
                             (
                                 VoiLutOption::Default | VoiLutOption::First,
                                 _,
                                 Some(voi_lut_sequence),
                             ) => Lut::new_rescale_and_lut(
-                                8,
+                                self.bits_stored,
                                 signed,
                                 rescale,
                                 VoiLutTransform::new(
@@ -1076,8 +1077,8 @@ impl DecodedPixelData<'_> {
                             )
                             .context(CreateLutSnafu)?,
                             (VoiLutOption::Default | VoiLutOption::First, Some(window), _) => {
-                                Lut::new_rescale_and_window(
-                                    8,
+                                Lut::new_rescale_and_window_8bit(
+                                    self.bits_stored,
                                     signed,
                                     rescale,
                                     WindowLevelTransform::new(
@@ -1112,28 +1113,30 @@ impl DecodedPixelData<'_> {
                                 )
                                 .context(CreateLutSnafu)?
                             }
-                            (VoiLutOption::Custom(window), _, _) => Lut::new_rescale_and_window(
-                                8,
-                                signed,
-                                rescale,
-                                WindowLevelTransform::new(
-                                    match self.voi_lut_function()? {
-                                        Some(lut) => {
-                                            if lut.len() > 1 {
-                                                lut[frame as usize]
-                                            } else {
-                                                lut[0]
+                            (VoiLutOption::Custom(window), _, _) => {
+                                Lut::new_rescale_and_window_8bit(
+                                    self.bits_stored,
+                                    signed,
+                                    rescale,
+                                    WindowLevelTransform::new(
+                                        match self.voi_lut_function()? {
+                                            Some(lut) => {
+                                                if lut.len() > 1 {
+                                                    lut[frame as usize]
+                                                } else {
+                                                    lut[0]
+                                                }
                                             }
-                                        }
-                                        None => VoiLutFunction::Linear,
-                                    },
-                                    *window,
-                                ),
-                            )
-                            .context(CreateLutSnafu)?,
+                                            None => VoiLutFunction::Linear,
+                                        },
+                                        *window,
+                                    ),
+                                )
+                                .context(CreateLutSnafu)?
+                            }
                             (VoiLutOption::CustomWithFunction(window, function), _, _) => {
-                                Lut::new_rescale_and_window(
-                                    8,
+                                Lut::new_rescale_and_window_8bit(
+                                    self.bits_stored,
                                     signed,
                                     rescale,
                                     WindowLevelTransform::new(*function, *window),
